@@ -102,11 +102,16 @@ Less(a, b) == a.order < b.order \/ (a.order = b.order /\ a.id < b.id)
 StepActions(R) == SelectSeq(R.acts, LAMBDA a : a.step)
 
 \* The sorted sequence, defined from the SET of step actions (hence independent of the
-\* registration order): position k holds the action with exactly k-1 predecessors.
+\* registration order): position k holds the action with exactly k-1 predecessors.  Ids of
+\* registered actions are distinct, so Less is a strict total order; the registry position is
+\* only a last-resort tie-break that keeps the definition total when a trace has already left
+\* the rails (two registered actions claiming the same id).
 SortedSteps(R) ==
-  LET s == StepActions(R)
-      S == {s[i] : i \in DOMAIN s}
-  IN [k \in 1..Len(s) |-> CHOOSE a \in S : Cardinality({b \in S : Less(b, a)}) = k - 1]
+  LET I == {i \in DOMAIN R.acts : R.acts[i].step}
+      Before(i, j) == \/ Less(R.acts[i], R.acts[j])
+                      \/ (~Less(R.acts[j], R.acts[i]) /\ i < j)
+      pos == [k \in 1..Cardinality(I) |-> CHOOSE i \in I : Cardinality({j \in I : Before(j, i)}) = k - 1]
+  IN [k \in 1..Cardinality(I) |-> R.acts[pos[k]]]
 
 \* sorted = FALSE is a design mutant ("forgot to sort")
 Build(R, times, sorted) ==
